@@ -343,6 +343,16 @@ impl<'a> Exec<'a> {
         } else {
             (check, site)
         };
+        if self.limits && ["C01.", "C03.", "C05.", "C08."].iter().any(|p| check.starts_with(p)) {
+            // a boundary scenario holds only states at or over a limit: what is within must
+            // "be accepted and round-trip", so a functional failure there is C20's as well
+            self.violations.push(Violation {
+                check: "C20.within-limits-wrong".to_string(),
+                site: site.to_string(),
+                message: format!("[{}] {}", check, msg),
+                op_id: self.cur_id,
+            });
+        }
         self.violations.push(Violation {
             check: check.to_string(),
             site: site.to_string(),
